@@ -204,5 +204,5 @@ func floor(s *slip.Scope, f slip.Object, args slip.List, depth int) slip.Values 
 	case slip.Complex:
 		slip.TypePanic(s, depth, "number", tn, "real")
 	}
-	return slip.Values{q, r}
+	return slip.Values{canonicalNumber(q), canonicalNumber(r)}
 }
